@@ -23,7 +23,10 @@ JUDGE: the property itself, on the implementation's observations only: every Get
 answer must equal the fold of the committed operations so far, and whenever the table is empty and
 no worker is busy the inner store must equal that fold. A mismatch that is explained by an
 *observed* stale inner mutation (a worker mutating the inner store for an entry that another owner
-had already finalized) gets the known-finding signature; anything else a generic one.
+had already finalized) gets the known-finding signature — provided that worker's lease had really
+run out when the entry was taken from it (the judge keeps the lease ends from the acknowledged
+`claim ok` / `ext ok` steps and the clock); if the lease was still live it is
+`C18.live-lease-taken-over.…`; anything else a generic signature.
 -/
 import Pithos.Util.Proto
 import Pithos.Model.Outbox
@@ -66,6 +69,7 @@ def storeTok (m : Store) : String :=
 structure Stale where
   part : Nat
   value : Option Bytes      -- what it left in the inner store
+  live : Bool := false      -- the writer's lease had NOT run out when the entry was taken from it
 
 structure J where
   committed : List POp := []
@@ -74,12 +78,20 @@ structure J where
   finalized : List Nat := []                 -- entries whose row was deleted
   stale : List Stale := []
   vio : List (String × String) := []
+  -- the judge's own lease bookkeeping, from acknowledged steps only
+  now : Nat := 0
+  lease : Nat := 10
+  leases : List (Nat × Nat × Nat) := []      -- (worker, entry, time of its last `claim ok` / `ext ok`)
+  stolen : List (Nat × Nat) := []            -- (entry, worker it was taken from while that worker's lease was live)
 
 def J.explain (j : J) (part : Nat) (observed : Option Bytes) : Option String :=
   match (j.stale.filter (·.part == part)).getLast? with
   | some st =>
     if st.value == observed then
-      some (if observed.isSome then "C18.lost-lease.stale-put-resurrects-part" else "C18.lost-lease.stale-delete-loses-part")
+      -- a stale mutation after a lease that really ran out is the known finding; one by a worker whose
+      -- lease was still live when another worker got the entry is a broken lease protocol
+      let pre := if st.live then "C18.live-lease-taken-over" else "C18.lost-lease"
+      some (if observed.isSome then pre ++ ".stale-put-resurrects-part" else pre ++ ".stale-delete-loses-part")
     else none
   | none => none
 
@@ -101,7 +113,7 @@ def judgeCase (_k : Nat) (lines : List String) : Verdict := Id.run do
     | some ("cfg" :: rest) => (kv rest "lease").toNat!
     | _ => 10
   let mut s : St := init lease
-  let mut j : J := {}
+  let mut j : J := { lease := lease }
   let mut div : List String := []
   let mut idx := 0
   let mut nSteps := 0
@@ -110,6 +122,7 @@ def judgeCase (_k : Nat) (lines : List String) : Verdict := Id.run do
   let mut nExpire := 0
   let mut nCrash := 0
   let mut nTakeover := 0
+  let mut nLiveTakeover := 0
   let mut nReads := 0
   let mut nIdle := 0
   let mut nBusy := 0
@@ -146,7 +159,11 @@ def judgeCase (_k : Nat) (lines : List String) : Verdict := Id.run do
       | ["ok", e, _] =>
         let e := e.toNat!
         if j.holds.any (fun (w', e') => w' != w && e' == e) then nTakeover := nTakeover + 1
-        j := { j with holds := (w, e) :: j.holds.filter (·.1 != w) }
+        let robbed := (j.leases.filter fun (w', e', tm) => w' != w && e' == e && j.now < tm + j.lease).map (·.1)
+        if !robbed.isEmpty then nLiveTakeover := nLiveTakeover + 1
+        j := { j with holds := (w, e) :: j.holds.filter (·.1 != w),
+                      leases := (w, e, j.now) :: j.leases.filter (·.1 != w),
+                      stolen := j.stolen ++ robbed.map (fun w' => (e, w')) }
       | ["busy"] => nBusy := nBusy + 1
       | _ => pure ()
       nSteps := nSteps + 1
@@ -171,7 +188,7 @@ def judgeCase (_k : Nat) (lines : List String) : Verdict := Id.run do
         | some (_, e) =>
           if j.finalized.contains e then
             match j.entryOps[e]? with
-            | some op => j := { j with stale := j.stale ++ [{ part := op.id, value := op.value }] }
+            | some op => j := { j with stale := j.stale ++ [{ part := op.id, value := op.value, live := j.stolen.contains (e, w) }] }
             | none => pure ()
         | none => pure ()
       else
@@ -189,25 +206,33 @@ def judgeCase (_k : Nat) (lines : List String) : Verdict := Id.run do
         | some (_, e) => j := { j with finalized := e :: j.finalized }
         | none => pure ()
       else nSkipped := nSkipped + 1
+      j := { j with leases := j.leases.filter (·.1 != w) }
       nSteps := nSteps + 1
     | ["rel", w, res] =>
       let (s', d) := stepCmp (.release w.toNat!) (fun o => o == .released (res == "released")) s
       s := s'
       if let some m := d then div := div ++ [m]
+      j := { j with leases := j.leases.filter (·.1 != w.toNat!) }
       nSteps := nSteps + 1
     | ["ext", w, res] =>
       let (s', d) := stepCmp (.extend w.toNat!) (fun o => o == .extended (res == "ok")) s
       s := s'
       if let some m := d then div := div ++ [m]
+      let wn := w.toNat!
+      if res == "ok" then j := { j with leases := j.leases.map fun (w', e, tm) => if w' == wn then (w', e, j.now) else (w', e, tm) }
+      else j := { j with leases := j.leases.filter (·.1 != wn) }
       nSteps := nSteps + 1
-    | ["tick", d] => s := (step false s (.tick d.toNat!)).1
+    | ["tick", d] =>
+      s := (step false s (.tick d.toNat!)).1
+      j := { j with now := j.now + d.toNat! }
     | ["expire"] =>
       s := (step false s .leaseExpire).1
+      j := { j with now := j.leases.foldl (fun m (_, _, tm) => max m (tm + j.lease)) j.now }
       nExpire := nExpire + 1
     | ["crash", w] =>
       let w := w.toNat!
       s := (step false s (.crash w)).1
-      j := { j with holds := j.holds.filter (·.1 != w) }
+      j := { j with holds := j.holds.filter (·.1 != w), leases := j.leases.filter (·.1 != w) }
       nCrash := nCrash + 1
     | "get" :: id :: res :: _ =>
       let id := id.toNat!
@@ -232,7 +257,8 @@ def judgeCase (_k : Nat) (lines : List String) : Verdict := Id.run do
           let sig := match (j.stale.filter (·.part == p)).getLast? with
             | some st =>
               if st.value.isSome == listed then
-                (if listed then "C18.lost-lease.stale-put-resurrects-part" else "C18.lost-lease.stale-delete-loses-part")
+                (if st.live then "C18.live-lease-taken-over" else "C18.lost-lease") ++
+                (if listed then ".stale-put-resurrects-part" else ".stale-delete-loses-part")
               else "C18.ids-not-latest-committed"
             | none => "C18.ids-not-latest-committed"
           j := { j with vio := j.vio ++ [(sig, msg)] }
@@ -268,7 +294,7 @@ def judgeCase (_k : Nat) (lines : List String) : Verdict := Id.run do
     nontrivial := nCommits ≥ 1 && nWrites ≥ 1 && nSteps ≥ 6,
     fingerprint := fpLines lines,
     stats := [("steps", nSteps), ("commits", nCommits), ("inner_writes", nWrites), ("lease_expiries", nExpire),
-              ("crashes", nCrash), ("takeovers", nTakeover), ("reads", nReads), ("idle_points", nIdle),
+              ("crashes", nCrash), ("takeovers", nTakeover), ("takeovers_of_a_live_lease", nLiveTakeover), ("reads", nReads), ("idle_points", nIdle),
               ("claim_busy", nBusy), ("read_vanished", nVanished), ("finalize_skipped", nSkipped),
               ("stale_inner_writes_observed", j.stale.length)],
     samples := [String.intercalate ";" (lines.take 30)]
